@@ -2,6 +2,7 @@ import KyupyVerif.Props.C14
 import KyupyVerif.Props.C04
 import KyupyVerif.Proofs.SdfWave1
 import KyupyVerif.Proofs.SdfWave2
+import KyupyVerif.Proofs.SdfWaveDemo
 /-! # C14 ∘ C04/C03 — the timing data path: from an SDF description to WaveSim waveforms
 
 `WaveSim(circuit, delays = df.iopaths(circuit, tlib) + df.interconnects(circuit, tlib))` with `df = sdf.parse(text)`.
@@ -174,21 +175,6 @@ theorem sta_window_equations (tbl : List PrefixRow) (net : Net) (order : List Na
   show execG (staSem cfg) (waveProg p) win o.out = _
   rw [sta_equations cfg p hprog win o ho' hne, staSem_wvOp]
 
-/-- Boolean form of `PathOK` (evaluated in the examples) -/
-def pathOKB (p : MapIn) (W : Nat → Win) : Nat → List (OpRow × Nat) → Bool
-  | _, [] => true
-  | x, (o, i) :: rest => decide (o ∈ p.ops) && decide (o.out ≠ p.ix.tmp) && decide (i < 4) &&
-      decide (p.src (o.ins.getD i 0) = x) &&
-      ((List.range 4).all fun j => j == i || decide (W (p.src (o.ins.getD j 0)) = none)) && pathOKB p W o.out rest
-
-theorem pathOKB_sound (p : MapIn) (W : Nat → Win) : ∀ x path, pathOKB p W x path = true → PathOK p W x path
-  | _, [], _ => trivial
-  | x, (o, i) :: rest, h => by
-    simp only [pathOKB, Bool.and_eq_true, decide_eq_true_eq, List.all_eq_true, List.mem_range, Bool.or_eq_true,
-      beq_iff_eq] at h
-    obtain ⟨⟨⟨⟨⟨h1, h2⟩, h3⟩, h4⟩, h5⟩, h6⟩ := h
-    exact ⟨h1, h2, h3, h4, fun j hj hji => (h5 j hj).resolve_left hji, pathOKB_sound p W o.out rest h6⟩
-
 /-- **`sdf_path_window`** (every circuit, hypotheses of `sdf_sta_window`). Along a sensitised path `x → … → pathEnd x path`
 of op rows (each row reads the signal before it in one operand slot — through the stem when stripped —, its other value sources
 have the empty window: constant side inputs, unused slots) ending at the signal output slot `j` captures: every transition
@@ -217,9 +203,6 @@ theorem sdf_path_window (tbl : List PrefixRow) (net : Net) (order : List Nat) (s
   rw [sta_path (sdfCfg pinLine icLine (parse .merge B) d p.cap) p _
     (sta_equations (sdfCfg pinLine icLine (parse .merge B) d p.cap) p hprog win) x path hpath] at key
   exact key
-
-theorem sum_map_congr {α} (l : List α) (f g : α → Int) (h : ∀ a ∈ l, f a = g a) : (l.map f).sum = (l.map g).sum := by
-  rw [List.map_congr_left h]
 
 /-- **`sdf_chain_arrival`: exact arrival time along a single sensitised path.** As `sdf_path_window`, with the path starting at
 an input signal `x` (no row writes it) whose transitions all happen at time `t` (`win x = [t, t]`), and polarity-independent
@@ -335,5 +318,85 @@ theorem sdf_text_chain_arrival (tbl : List PrefixRow) (net : Net) (order : List 
   cases hdel
   exact sdf_chain_arrival tbl net order strip capsIn capsMin reuse p hp hwf ho hf hr h4 pinLine icLine B hnn d m0 m1 env0
     hst hpr win hw x path hpath j hj hx t hwx hpol
+
+/-! ## non-vacuity: `z = NAND2_X1(INV_X1(a), b)` with an SDF text (Proofs/SdfWaveDemo.lean)
+
+The circuit as `verilog.parse(…, branchforks=True)` builds it, `WaveSim(c, delays, c_caps=16)`; the text `demoText`
+(`demoText_eq` shows it) gives every IOPATH and INTERCONNECT its own value; `a` rises at 1.000, `b` is constant 1. -/
+
+/-- the IOPATH `u2: A1 → ZN (2.000:2.500:3.000)` is the WaveSim delay of line 7 (branch fork → `u2.A1`), data set 1, for both
+input polarities — every hypothesis of `sdf_delays_are_wave_delays` holds -/
+example : (sdfCfg demoPins demoIc (parse .merge demoB) 1 demo.cap).delay 7 true false = 2500 :=
+  sdf_delays_are_wave_delays demoPins demoIc demoB (demoB[2]) "u2" ⟨"A1", "ZN", [[some 2000, some 2500, some 3000]]⟩ 7 1 true false
+    demo.cap (by decide +kernel) (by decide +kernel) (by decide +kernel) (by decide +kernel) (by decide +kernel)
+    (by decide +kernel) (by decide) (by decide +kernel)
+    (fun c1 p1 c2 p2 h => by have := demoIc_range c1 p1 c2 p2 7 h; omega)
+
+/-- the edge-qualified IOPATH `u2: (posedge A2) → ZN (1.5…) (1.75…)` fills input polarity 0 of line 9 only: falling output 1.750 -/
+example : (sdfCfg demoPins demoIc (parse .merge demoB) 0 demo.cap).delay 9 false true = 1750 :=
+  sdf_delays_are_wave_delays demoPins demoIc demoB (demoB[2]) "u2"
+    ⟨"(posedge A2)", "ZN", [[some 1500, some 1500, some 1500], [some 1750, some 1750, some 1750]]⟩ 9 0 false true
+    demo.cap (by decide +kernel) (by decide +kernel) (by decide +kernel) (by decide +kernel) (by decide +kernel)
+    (by decide +kernel) (by decide) (by decide +kernel)
+    (fun c1 p1 c2 p2 h => by have := demoIc_range c1 p1 c2 p2 9 h; omega)
+
+/-- the INTERCONNECT `u1/ZN → u2/A1 (0.250:0.375:0.500)` is the WaveSim delay of line 6 (fork `n1` → branch fork), data set 2 -/
+example : (sdfCfg demoPins demoIc (parse .merge demoB) 2 demo.cap).delay 6 false true = 500 :=
+  sdf_interconnect_delays_are_wave_delays demoPins demoIc demoB (demoB[0]) ⟨"u1/ZN", "u2/A1", [[some 250, some 375, some 500]]⟩
+    6 2 false true demo.cap (by decide +kernel) (by decide +kernel) (by decide +kernel) (by decide +kernel)
+    (by decide +kernel) (by decide) (by decide +kernel)
+    (fun c p h => by have := demoPins_range c p 6 h; omega)
+
+/-- line 0 (`u1.ZN` → fork `n1`) is named by no entry: delay 0 -/
+example : (sdfCfg demoPins demoIc (parse .merge demoB) 0 demo.cap).delay 0 true true = 0 :=
+  sdf_untabled_lines_zero demoPins demoIc _ 0 0 true true demo.cap
+    (fun c p h => by have := demoPins_range c p 0 h; omega)
+    (fun c1 p1 c2 p2 h => by have := demoIc_range c1 p1 c2 p2 0 h; omega)
+
+/-- the delays read from the TEXT are the demo's delay table -/
+theorem demo_text_delay : textDelay demoPins demoIc demoText 0 = some demoDelay :=
+  (sdf_text_delays demoPins demoIc demoB demoB_ok.1 demoB_ok.2.1 0).2
+
+/-- **end to end on the demo**: after the propagation with the delays read from the text, the region of the output slot
+(cells 180 … 195 of the real layout) holds exactly one transition, the rise at 4.875 = 1.000 + 0.125 (a → u1/I) + 1.000
+(u1: I → ZN) + 0.250 (u1/ZN → u2/A1) + 2.000 (u2: A1 → ZN) + 0.500 (u2/ZN → z); the memory-level run is never evaluated:
+`C03.wave_memory_sound` reduces it to the signal-level value computed by `decide +kernel` (`demo_sim`) -/
+example (junk : Int → Nat → Wv → (Int → T) → Int → T) :
+    rdWave 180 16 (memRun demo (waveRW junk) (waveRow (wcfg demo demoDelay) demo) demo.ops demoM0) = ⟨[T.fin 4875], T.tmax⟩ := by
+  have h := propagated_eq_sim demo demo_check demoDelay demoM0 _ _ (stimulus_inputEnv _ _) (demo_propagated junk) 19 10
+    (by rw [demo_tables.2.1]; exact List.mem_singleton.mpr rfl)
+  rw [demo_tables.2.2.2.2.2.2.2.1, demo_tables.2.2.2.2.2.2.2.2.1] at h
+  rw [h]
+  exact demo_sim
+
+/-- every hypothesis of `sdf_text_sta_window` holds for the demo, and the window static timing analysis computes from the
+text's delays for the captured line is the single point 4875 -/
+example (junk : Int → Nat → Wv → (Int → T) → Int → T) :
+    Within (rdWave 180 16 (memRun demo (waveRW junk) (waveRow (wcfg demo demoDelay) demo) demo.ops demoM0))
+      (some (4875, 4875)) := by
+  have key := sdf_text_sta_window Gen.kindPrefixes demoNet demoOrder false (fun _ => 16) 4 false demo rfl demo_hyps.1
+    demo_hyps.2.1 (fun h => by cases h) demo_hyps.2.2.2 (by decide) demoPins demoIc demoText demoB
+    (sdf_text_delays demoPins demoIc demoB demoB_ok.1 demoB_ok.2.1 0).1 demoB_ok.2.2 0 demoDelay demo_text_delay
+    demoM0 _ (inputEnv demo demoM0) (stimulus_inputEnv _ _) (demo_propagated junk) demoWin demo_win_ok 19 10
+    (by rw [demo_tables.2.1]; exact List.mem_singleton.mpr rfl)
+  have hsta : execG (staSem (wcfg demo demoDelay)) (waveProg demo) demoWin 10 = some (4875, 4875) := by decide +kernel
+  rw [demo_tables.2.2.2.2.2.2.2.1, demo_tables.2.2.2.2.2.2.2.2.1, hsta] at key
+  exact key
+
+/-- every hypothesis of `sdf_text_chain_arrival` holds for the demo (`demoPath`: the eight rows from input slot 14 to the
+captured line 10, side input `b` without transition, polarity-independent delays on the path although line 9 is
+polarity dependent): any transition in the output region happens at 1000 + 3875 -/
+example (junk : Int → Nat → Wv → (Int → T) → Int → T) :
+    ∀ u, T.fin u ∈ (rdWave 180 16 (memRun demo (waveRW junk) (waveRow (wcfg demo demoDelay) demo) demo.ops demoM0)).ents →
+      u = 1000 + 3875 := by
+  have key := sdf_text_chain_arrival Gen.kindPrefixes demoNet demoOrder false (fun _ => 16) 4 false demo rfl demo_hyps.1
+    demo_hyps.2.1 (fun h => by cases h) demo_hyps.2.2.2 (by decide) demoPins demoIc demoText demoB
+    (sdf_text_delays demoPins demoIc demoB demoB_ok.1 demoB_ok.2.1 0).1 demoB_ok.2.2 0 demoDelay demo_text_delay
+    demoM0 _ (inputEnv demo demoM0) (stimulus_inputEnv _ _) (demo_propagated junk) demoWin demo_win_ok 14 demoPath
+    (pathOKB_sound _ _ _ _ (by decide +kernel)) 19
+    (by rw [demo_tables.2.1]; exact List.mem_singleton.mpr rfl) (by decide +kernel) 1000 rfl (by decide +kernel)
+  have hsum : ((pathLines demoPath).map fun l => demoDelay l false false).sum = 3875 := by decide +kernel
+  rw [demo_tables.2.2.2.2.2.2.2.1, demo_tables.2.2.2.2.2.2.2.2.1, hsum] at key
+  exact key
 
 end KV.C14
